@@ -768,6 +768,9 @@ def build(ir):
     out.outputs.append(outputs)
     out.keys.append(g.m.signatureDefs[-1].signatureKey.decode())
     out.handles.append(handles)
+  if ir.get('sigdefs') == 'rev':
+    # signature_defs listed in another order than their subgraphs
+    g.m.signatureDefs.reverse()
   out.model = g.bytes()
   return out
 
